@@ -44,6 +44,15 @@ func c15Hash(tx *types.Transaction) common.Hash {
 	return h
 }
 
+// c15HeaderHash replaces (*types.Header).Hash under the engine: the first
+// extra-data byte (unique per harness block) is the identity.
+func c15HeaderHash(h *types.Header) common.Hash {
+	var x common.Hash
+	x[0] = 0xb1
+	x[31] = h.Extra[0]
+	return x
+}
+
 // c15Size replaces (*types.Transaction).Size under the engine.
 func c15Size(tx *types.Transaction) common.StorageSize { return 110 }
 
@@ -72,13 +81,13 @@ func (s *c15Signer) Equal(o types.Signer) bool {
 // empty account trie: an account that was not set explicitly does not exist
 type c15Trie struct{}
 
-func (c15Trie) TryGet(key []byte) ([]byte, error)                            { return nil, nil }
-func (c15Trie) TryUpdate(key, value []byte) error                            { return nil }
-func (c15Trie) TryDelete(key []byte) error                                   { return nil }
-func (c15Trie) Commit(onleaf trie.LeafCallback) (common.Hash, error)         { return common.Hash{}, nil }
-func (c15Trie) Hash() common.Hash                                            { return common.Hash{} }
-func (c15Trie) NodeIterator(startKey []byte) trie.NodeIterator               { return nil }
-func (c15Trie) GetKey(b []byte) []byte                                       { return b }
+func (c15Trie) TryGet(key []byte) ([]byte, error)                             { return nil, nil }
+func (c15Trie) TryUpdate(key, value []byte) error                             { return nil }
+func (c15Trie) TryDelete(key []byte) error                                    { return nil }
+func (c15Trie) Commit(onleaf trie.LeafCallback) (common.Hash, error)          { return common.Hash{}, nil }
+func (c15Trie) Hash() common.Hash                                             { return common.Hash{} }
+func (c15Trie) NodeIterator(startKey []byte) trie.NodeIterator                { return nil }
+func (c15Trie) GetKey(b []byte) []byte                                        { return b }
 func (c15Trie) Prove(key []byte, fromLevel uint, proofDb aquadb.Putter) error { return nil }
 
 type c15DB struct{}
@@ -90,11 +99,20 @@ func (c15DB) ContractCode(addrHash, codeHash common.Hash) ([]byte, error)    { r
 func (c15DB) ContractCodeSize(addrHash, codeHash common.Hash) (int, error)   { return 0, nil }
 func (c15DB) TrieDB() *trie.Database                                         { return nil }
 
-type c15Chain struct{ next *state.StateDB }
+type c15Chain struct {
+	next   *state.StateDB
+	blocks map[common.Hash]*types.Block
+}
 
-func (c *c15Chain) CurrentBlock() *types.Block                                 { return nil }
-func (c *c15Chain) GetBlock(hash common.Hash, number uint64) *types.Block      { return nil }
-func (c *c15Chain) StateAt(root common.Hash) (*state.StateDB, error)           { return c.next, nil }
+func (c *c15Chain) CurrentBlock() *types.Block { return nil }
+func (c *c15Chain) GetBlock(hash common.Hash, number uint64) *types.Block {
+	b := c.blocks[hash]
+	if b == nil || b.NumberU64() != number {
+		return nil
+	}
+	return b
+}
+func (c *c15Chain) StateAt(root common.Hash) (*state.StateDB, error)                    { return c.next, nil }
 func (c *c15Chain) SubscribeChainHeadEvent(ch chan<- ChainHeadEvent) event.Subscription { return nil }
 
 // ---------------------------------------------------------------------------
@@ -112,12 +130,17 @@ type c15Acct struct {
 }
 
 type c15World struct {
-	pool   *TxPool
-	signer *c15Signer
-	chain  *c15Chain
-	accts  []*c15Acct
-	tag    byte
-	priced bool // transactions get symbolic prices (else price 0: cost = value)
+	pool      *TxPool
+	signer    *c15Signer
+	chain     *c15Chain
+	accts     []*c15Acct
+	tag       byte
+	priced    bool // transactions get symbolic prices (else price 0: cost = value)
+	locals    bool // accounts may be local
+	sorted    bool // symbolic prices are non-decreasing in creation order (quick tier)
+	lastPrice *big.Int
+	blockGas  uint64 // gas limit of the harness blocks
+	quiet     bool   // queued transactions are affordable, not stale and not promotable (nothing but the limits acts on them)
 }
 
 func (w *c15World) newTx(from common.Address, nonce uint64, value *big.Int, gas uint64, price *big.Int) *types.Transaction {
@@ -140,8 +163,9 @@ func c15NewState(accts []*c15Acct) *state.StateDB {
 }
 
 // c15NewWorld makes an empty pool over na accounts with symbolic chain nonces
-// and balances, a symbolic block gas limit and small symbolic limits.
-func c15NewWorld(na int, priced bool) *c15World {
+// and balances and a symbolic block gas limit; the slot/queue limits are the
+// defaults or (symLimits) small symbolic values.
+func c15NewWorld(na int, priced, symLimits bool) *c15World {
 	w := &c15World{signer: &c15Signer{from: map[*types.Transaction]common.Address{}}, chain: &c15Chain{}, priced: priced}
 	for i := 0; i < na; i++ {
 		a := &c15Acct{addr: c15Addrs[i]}
@@ -150,15 +174,18 @@ func c15NewWorld(na int, priced bool) *c15World {
 		a.bal = vs.BigU("balance", 256)
 		w.accts = append(w.accts, a)
 	}
-	cfg := TxPoolConfig{PriceLimit: 1, PriceBump: 10}
-	cfg.AccountSlots = vs.U64("accountslots")
-	cfg.GlobalSlots = vs.U64("globalslots")
-	cfg.AccountQueue = vs.U64("accountqueue")
-	cfg.GlobalQueue = vs.U64("globalqueue")
-	vs.Assume(cfg.AccountSlots <= 8)
-	vs.Assume(cfg.GlobalSlots <= 8)
-	vs.Assume(cfg.AccountQueue <= 8)
-	vs.Assume(cfg.GlobalQueue <= 8)
+	cfg := DefaultTxPoolConfig // limits far above the handful of transactions of a harness run
+	cfg.Journal = ""
+	if symLimits {
+		cfg.AccountSlots = vs.U64("accountslots")
+		cfg.GlobalSlots = vs.U64("globalslots")
+		cfg.AccountQueue = vs.U64("accountqueue")
+		cfg.GlobalQueue = vs.U64("globalqueue")
+		vs.Assume(cfg.AccountSlots <= 8)
+		vs.Assume(cfg.GlobalSlots <= 8)
+		vs.Assume(cfg.AccountQueue <= 8)
+		vs.Assume(cfg.GlobalQueue <= 8)
+	}
 	pool := &TxPool{
 		config:   cfg,
 		chain:    w.chain,
@@ -189,7 +216,12 @@ func (w *c15World) gasFor() uint64 {
 
 func (w *c15World) priceFor() *big.Int {
 	if w.priced {
-		return vs.BigU("price", 64)
+		p := vs.BigU("price", 64)
+		if w.sorted && w.lastPrice != nil {
+			vs.Assume(p.Cmp(w.lastPrice) >= 0) // creation order = price order: no forks while building the price heap
+		}
+		w.lastPrice = p
+		return p
 	}
 	return big.NewInt(0)
 }
@@ -200,7 +232,7 @@ func (w *c15World) priceFor() *big.Int {
 // full=true the pending ones are executable in the current state.
 func (w *c15World) fill(a *c15Acct, np, nq int, full bool) {
 	pool := w.pool
-	if vs.Choice("local", 2) == 1 {
+	if w.locals && a == w.accts[0] && vs.Choice("local", 2) == 1 { // the first account may be a local one
 		a.local = true
 		pool.locals.add(a.addr)
 	}
@@ -216,7 +248,7 @@ func (w *c15World) fill(a *c15Acct, np, nq int, full bool) {
 		cost := tx.Cost()
 		vs.Assume(l.costcap.Cmp(cost) >= 0)
 		vs.Assume(l.gascap >= gas)
-		if full && l.strict {
+		if full && (l.strict || w.quiet) {
 			vs.Assume(cost.Cmp(a.bal) <= 0)
 			vs.Assume(gas <= pool.currentMaxGas)
 		}
@@ -242,11 +274,21 @@ func (w *c15World) fill(a *c15Acct, np, nq int, full bool) {
 			nonce := vs.U64("queuednonce")
 			vs.Assume(nonce <= math.MaxUint64-16)
 			vs.Assume(nonce-a.base >= uint64(np)) // not one of the pending nonces
+			if full {
+				vs.Assume(nonce-a.base != uint64(np)) // nor the next one (it would have been promoted)
+			}
+			if w.quiet {
+				vs.Assume(nonce > a.base+uint64(np))
+			}
 			for _, o := range qn {
 				vs.Assume(nonce != o)
 			}
 			qn = append(qn, nonce)
 			put(l, nonce)
+		}
+		if w.quiet {
+			vs.Assume(l.costcap.Cmp(a.bal) <= 0)
+			vs.Assume(l.gascap <= pool.currentMaxGas)
 		}
 		pool.queue[a.addr] = l
 	}
@@ -279,6 +321,7 @@ func (w *c15World) invariant() {
 			c15IndexOK(l.txs)
 			for _, nonce := range *l.txs.index {
 				vs.Assert(nonce-sn >= uint64(np), "at most one transaction per sender and nonce across pending and queue")
+				vs.Assert(nonce-sn != uint64(np), "no queued transaction at the next pending nonce (everything executable is pending)")
 				w.member(a, l.txs.items[nonce], nonce, l)
 			}
 		}
@@ -332,7 +375,7 @@ func c15Shape(name string, maxp, maxq int) (int, int) {
 
 func VerifC15_Reset() {
 	na := vs.Param("accounts")
-	w := c15NewWorld(na, false)
+	w := c15NewWorld(na, false, false)
 	for _, a := range w.accts {
 		np, nq := c15Shape("", vs.Param("maxpending"), vs.Param("maxqueued"))
 		w.fill(a, np, nq, false)
@@ -351,8 +394,7 @@ func VerifC15_Reset() {
 	w.observe()
 }
 
-func (w *c15World) observe() {
-	npend, nqueue := 0, 0
+func (w *c15World) counts() (npend, nqueue int) {
 	for _, a := range w.accts {
 		if l := w.pool.pending[a.addr]; l != nil {
 			npend += l.Len()
@@ -361,6 +403,11 @@ func (w *c15World) observe() {
 			nqueue += l.Len()
 		}
 	}
+	return
+}
+
+func (w *c15World) observe() {
+	npend, nqueue := w.counts()
 	vs.Observe("pending", npend)
 	vs.Observe("queued", nqueue)
 	if npend > 0 {
@@ -374,20 +421,22 @@ func (w *c15World) observe() {
 // ---------------------------------------------------------------------------
 // M2: submission of one transaction
 
-var c15GasChoices = []uint64{21000, 21068, 90000} // below / at the intrinsic gas of a 1-byte payload, and above
+var c15GasChoices = []uint64{90000, 21000, 21068} // above / below / at the intrinsic gas of a 1-byte payload (21068)
 
 func VerifC15_AddTx() {
 	na := vs.Param("accounts")
-	w := c15NewWorld(na, true)
+	w := c15NewWorld(na, true, false)
+	w.locals = vs.Param("locals") == 1
+	w.sorted = vs.Param("sortedprices") == 1
 	for _, a := range w.accts {
 		np, nq := c15Shape("", vs.Param("maxpending"), vs.Param("maxqueued"))
 		w.fill(a, np, nq, true)
 	}
 	pool := w.pool
-	who := vs.Choice("sender", na+1) // na: no valid signature
+	who := vs.Choice("sender", na+vs.Param("badsender")) // na: no valid signature
 	nonce := vs.U64("txnonce")
 	vs.Assume(nonce <= math.MaxUint64-16)
-	gas := c15GasChoices[vs.Choice("txgas", len(c15GasChoices))]
+	gas := c15GasChoices[vs.Choice("txgas", vs.Param("gaschoices"))]
 	price := vs.BigU("txprice", 64)
 	value := vs.Big("txvalue")
 	vs.Assume(value.Cmp(c15Two256) < 0)
@@ -398,7 +447,7 @@ func VerifC15_AddTx() {
 		from = w.accts[who]
 		w.signer.from[tx] = from.addr
 	}
-	local := vs.Choice("aslocal", 2) == 1
+	local := w.locals && vs.Choice("aslocal", 2) == 1
 	room := uint64(len(pool.all)) < pool.config.GlobalSlots+pool.config.GlobalQueue // no eviction for room
 
 	err := pool.addTx(tx, local)
@@ -446,7 +495,7 @@ var c15Two256 = new(big.Int).Lsh(big.NewInt(1), 256)
 
 func VerifC15_Remove() {
 	na := vs.Param("accounts")
-	w := c15NewWorld(na, vs.Param("priced") == 1)
+	w := c15NewWorld(na, vs.Param("priced") == 1, false)
 	var members []*types.Transaction
 	for _, a := range w.accts {
 		np, nq := c15Shape("", vs.Param("maxpending"), vs.Param("maxqueued"))
@@ -465,5 +514,120 @@ func VerifC15_Remove() {
 		vs.Assert(w.pool.all[victim.Hash()] == nil, "removed transaction leaves the lookup map")
 	}
 	w.invariant()
+	w.observe()
+}
+
+// ---------------------------------------------------------------------------
+// M4: pool-wide and per-account limits.  The pool satisfies the invariant and
+// nothing is stale, unaffordable or promotable, so promoteExecutables only
+// enforces AccountQueue, GlobalSlots/AccountSlots and GlobalQueue (small
+// symbolic values); local senders are exempt.
+
+func VerifC15_Limits() {
+	na := vs.Param("accounts")
+	w := c15NewWorld(na, false, true)
+	w.locals = true
+	w.quiet = true
+	for _, a := range w.accts {
+		np, nq := c15Shape("", vs.Param("maxpending"), vs.Param("maxqueued"))
+		w.fill(a, np, nq, true)
+	}
+	if na > 1 && vs.Choice("olderbeat", 2) == 1 {
+		w.pool.beats[w.accts[0].addr] = time.Unix(1000, 0)
+	} else if na > 1 {
+		w.pool.beats[w.accts[1].addr] = time.Unix(1000, 0)
+	}
+	p0, q0 := w.counts()
+	w.pool.promoteExecutables(nil)
+	w.invariant()
+	w.limits(nil)
+	p1, q1 := w.counts()
+	if p1 < p0 {
+		vs.Reach("pending-capped")
+	}
+	if q1 < q0 {
+		vs.Reach("queue-capped")
+	}
+	w.observe()
+}
+
+// ---------------------------------------------------------------------------
+// M5: head change across a fork.  Blocks are real types.Block objects served by
+// the harness chain; the pool starts empty.  Transactions of the abandoned
+// branch that the new branch does not contain are pooled again if they are
+// valid in the new head state, and the invariant holds.
+
+func (w *c15World) block(parent *types.Block, number int64, txs []*types.Transaction) *types.Block {
+	w.tag++
+	h := &types.Header{Number: big.NewInt(number), Extra: []byte{w.tag}, Version: 1, GasLimit: w.blockGas}
+	if parent != nil {
+		h.ParentHash = parent.Hash()
+	}
+	b := types.NewBlockWithHeader(h).WithBody(txs, nil)
+	w.chain.blocks[b.Hash()] = b
+	return b
+}
+
+func VerifC15_Reorg() {
+	w := c15NewWorld(1, true, false)
+	w.chain.blocks = map[common.Hash]*types.Block{}
+	a := w.accts[0]
+	pool := w.pool
+	// two transactions of the account were mined on the old branch
+	n0 := vs.U64("minednonce")
+	vs.Assume(n0 <= math.MaxUint64-16)
+	var mined []*types.Transaction
+	for k := 0; k < 2; k++ {
+		mined = append(mined, w.newTx(a.addr, n0+uint64(k), vs.BigU("value", 256), w.gasFor(), w.priceFor()))
+	}
+	w.blockGas = vs.U64("newblockgaslimit")
+	ancestor := w.block(nil, 10, nil)
+	lo := 1 + vs.Choice("oldlen", 2) // old branch: 1 or 2 blocks
+	ln := vs.Choice("newlen", 3)     // new branch: 0 (rewind to the ancestor), 1 or 2 blocks
+	oldTip := ancestor
+	if lo == 1 {
+		oldTip = w.block(oldTip, 11, mined)
+	} else {
+		oldTip = w.block(oldTip, 11, mined[:1])
+		oldTip = w.block(oldTip, 12, mined[1:])
+	}
+	// the new branch may contain the first of them again
+	again := ln > 0 && vs.Choice("includedagain", 2) == 1
+	newTip := ancestor
+	for i := 0; i < ln; i++ {
+		var txs []*types.Transaction
+		if again && i == ln-1 {
+			txs = mined[:1]
+		}
+		newTip = w.block(newTip, int64(11+i), txs)
+	}
+	a.nonce = vs.U64("newstatenonce")
+	vs.Assume(a.nonce <= math.MaxUint64-16)
+	a.bal = vs.BigU("newbalance", 256)
+	w.chain.next = c15NewState(w.accts)
+	newHead := newTip.Header()
+
+	pool.reset(oldTip.Header(), newHead)
+
+	w.invariant()
+	for k, tx := range mined {
+		dropped := !(again && k == 0)
+		fresh := tx.Nonce() >= a.nonce
+		funded := tx.Cost().Cmp(a.bal) <= 0
+		fits := tx.Gas() <= newHead.GasLimit
+		paid := tx.GasPrice().Cmp(pool.gasPrice) >= 0
+		valid := fresh && funded
+		valid = valid && fits
+		valid = valid && paid
+		pooled := pool.all[tx.Hash()] == tx
+		if dropped {
+			vs.Assert(!valid || pooled, "transaction of the abandoned branch is pooled again if still valid")
+		} else {
+			vs.Assert(!pooled, "transaction contained in the new branch is not pooled")
+		}
+		if pooled {
+			vs.Reach("reinjected")
+		}
+	}
 	w.observe()
 }
